@@ -1,0 +1,58 @@
+//go:build verif
+
+// Contracts for the deductive checks under /verif (comment-only; no code).
+
+package walker
+
+// ---- C13: the Bloom-chain tracker never calls a visited CID new again ---------------------------
+// hit(b, key): what the filter b answers for key (true for every key added, possibly for others);
+// adding a key can only turn answers from false to true
+//@ ghost hit(b *bbloom.Bloom, key []byte) bool
+//@ func ext (*github.com/ipfs/bbloom.Bloom).Has
+//@   ensures result == hit(bl, entry)
+//@ func ext (*github.com/ipfs/bbloom.Bloom).AddIfNotHas
+//@   modifies hit(bl)
+//@   ensures added == !old(hit(bl, entry)) && hit(bl, entry)
+//@   ensures all(k []byte, old(hit(bl, k)) ==> hit(bl, k))
+// (cidHash / cidPrefix and the contracts of (Cid).Hash / (Cid).Prefix are declared in blockstore)
+//@ macro seenIn(bt, key) = exists(j, 0, len(bt.chain), hit(bt.chain[j], key))
+//@ func newBloom
+//@   assumed
+//@   ensures err == nil ==> result0 != nil && fresh(result0)
+//@ func (*BloomTracker).grow
+//@   prop C13
+//@   arith int-assumed
+//@   requires bt != nil && len(bt.chain) >= 1
+//@   modifies bt.chain, bt.lastCap, bt.curInserts, elems(bt.chain)
+//@   ensures[chain_only_grows] len(bt.chain) == old(len(bt.chain)) + 1 && forall(j, 0, old(len(bt.chain)), bt.chain[j] == old(bt.chain[j]))
+//@ func (*BloomTracker).Visit
+//@   prop C13
+//@   arith int-assumed
+//@   safety index
+//@   requires bt != nil && len(bt.chain) >= 1
+//@   requires[filters_are_distinct_objects] forall(i, 0, len(bt.chain), bt.chain[i] != nil)
+//@   modifies all
+//@   loop 0 invariant[no_earlier_filter_knows_it] forall(j, 0, rangeindex + 1, !hit(bt.chain[j], cidHash(c)))
+//@   ensures[a_visited_cid_is_never_new_again] old(seenIn(bt, cidHash(c))) ==> !result
+//@   ensures[new_exactly_when_unknown] !old(seenIn(bt, cidHash(c))) ==> result
+//@   ensures[every_visit_is_recorded] seenIn(bt, cidHash(c))
+
+// ---- C13: the walk emits a CID only after it was accepted by the tracker, found local and fetched,
+// and skips one only for one of the documented reasons --------------------------------------------
+//@ func iface VisitedTracker.Visit
+//@ func ext slices.Reverse
+//@   writes-args
+//@ func walkLoop
+//@   prop C13
+//@   arith int-assumed
+//@   safety index
+//@   requires cfg != nil
+//@   modifies all
+//@   dyn callparam:fetch noeffect
+//@   dyn callparam:emit noeffect
+//@   dyn callfield:locality noeffect
+//@   site[each_popped_cid_goes_through_the_tracker] invoke:VisitedTracker.Visit : arg1 == c
+//@   site[locality_of_the_popped_cid] callfield:locality : arg1 == c
+//@   site[fetches_the_popped_cid] callparam:fetch : arg1 == c && (cfg.tracker == nil || res("invoke:VisitedTracker.Visit#0", 0)) && (cfg.locality == nil || (res("callfield:locality#0", 0) && res("callfield:locality#0", 1) == nil))
+//@   site[emits_the_fetched_cid] callparam:emit : arg0 == c && res("callparam:fetch#0", 1) == nil && cidPrefix(c).MhType != mh.IDENTITY
+//@   site[children_go_on_the_stack] builtin:append : arg1 == res("callparam:fetch#0", 0)
